@@ -32,7 +32,8 @@ def run(rep):
         "gc.get_objects() for instances of the metamodel's classes (Import objects are not counted)",
         "follow-up result = structural dump of the loaded model incl. how each user object reacts to attribute access, "
         "compared with the same load by a fresh metamodel with fresh user classes",
-        "carrier grammar / providers / flavours as for C14; provider swallowing a nested failure only inside userclasses_check.in_fragment",
+        "carrier grammar / providers / flavours as for C14; no provider-triggered nested load together with a global "
+        "repository (userclasses_check.in_fragment)",
     ]
     uni = "Small" if quick else "Full"
     r, scen = K.model_check(uni)
